@@ -59,8 +59,16 @@ class Namer:
     """variable / label numbering shared by all snapshots of one function (so that equal instructions of two snapshots
     are equal terms, which the proved validators compare syntactically)"""
 
-    def __init__(self):
+    def __init__(self, fn_index=None, fn_k=0, calls=True):
         self.var_ix, self.lab_ix = {}, {}
+        self.fn_index = fn_index      # function name -> index of the function label (None: internal calls stay out of core)
+        self.fn_k = fn_k              # index of this function (its allocas get a region of their own)
+        self.calls = calls            # export invoke / ret / param with the call semantics of coq/C14/VenomCall.v
+
+
+ARGBASE = 1048576          # = VenomCall.ARGBASE
+FN_BASE = 2_000_000
+INVOKE, RET = -1, -2       # = VenomCall.INVOKE / RET
 
 
 def export_function(fn, data_segment=(), namer=None):
@@ -91,6 +99,14 @@ def export_function(fn, data_segment=(), namer=None):
         raise ValueError(f"operand {o!r}")
 
     n_alloca = 0
+    n_param = 0
+    retpc_param = None
+    if namer.calls and namer.fn_index is not None:
+        try:
+            from vyper.venom.call_layout import FunctionCallLayout
+            retpc_param = FunctionCallLayout(fn).return_pc_param
+        except Exception:  # noqa
+            retpc_param = None
     n_inst = 0
     ops, unknown = set(), set()
     blocks = []
@@ -102,9 +118,26 @@ def export_function(fn, data_segment=(), namer=None):
             n_inst += 1
             ops.add(op)
             outs = "[" + "; ".join(f"{var(o)}%positive" for o in inst.get_outputs()) + "]"
+            if namer.calls and namer.fn_index is not None:
+                if op in ("param", "fmp_param", "retpc_param") and bb is fn.entry and len(inst.get_outputs()) == 1:
+                    # VenomCall.v: the k-th argument-consuming param is a copy from the reserved variable ARGBASE + k, the
+                    # return-pc param the constant 0
+                    if inst is retpc_param:
+                        insts.append(f"Inst {outs} O_assign [OLit 0]")
+                    else:
+                        insts.append(f"Inst {outs} O_assign [OVar {ARGBASE + n_param}]")
+                        n_param += 1
+                    continue
+                if op == "invoke" and isinstance(inst.operands[0], IRLabel) and inst.operands[0].value in namer.fn_index:
+                    a_ = [f"OLab {FN_BASE + namer.fn_index[inst.operands[0].value]}"] + [operand(o) for o in inst.operands[1:]]
+                    insts.append(f"Inst {outs} (O_unknown ({INVOKE})) [" + "; ".join(a_) + "]")
+                    continue
+                if op == "ret":
+                    insts.append(f"Inst {outs} (O_unknown ({RET})) [" + "; ".join(operand(o) for o in inst.operands) + "]")
+                    continue
             if op == "alloca":
-                # the region is named after the output variable (stable across the snapshots of a function)
-                addr = ALLOCA_BASE + var(inst.get_outputs()[0]) * ALLOCA_STRIDE
+                # the region is named after the output variable (stable across the snapshots of a function) and the function
+                addr = ALLOCA_BASE + (namer.fn_k * 2 ** 20 + var(inst.get_outputs()[0])) * ALLOCA_STRIDE
                 n_alloca += 1
                 insts.append(f"Inst {outs} O_alloca [OLit {_hex(addr)}]")
                 continue
